@@ -103,6 +103,8 @@ namespace GeographicLib {
     // Carlson, eqs 2.36 - 2.39
     static const real tolRG0 =
       real(2.7) * sqrt((numeric_limits<real>::epsilon() * real(0.01)));
+    // fmax and fmin ignore a NaN argument; x + y doesn't
+    if (isnan(x + y)) return x + y;
     real
       x0 = sqrt(fmax(x, y)),
       y0 = sqrt(fmin(x, y)),
